@@ -110,23 +110,23 @@ func (sc *Scheduler) Schedule(ctx context.Context, g *ExecutionGraph, done chan 
 	if sc.timeout > 0 {
 		ctx, cancel = context.WithTimeout(ctx, sc.timeout)
 		defer cancel()
-		// The context ends the commands that are running at the deadline,
-		// but not what a command that has already exited left behind: a
-		// background child keeps the step's output open and the step would
-		// wait for it. Kill the process groups of all steps at the deadline.
-		go func(ctx context.Context) {
-			<-ctx.Done()
-			if errors.Is(ctx.Err(), context.DeadlineExceeded) {
-				for _, node := range g.Nodes() {
-					node.kill()
-				}
-			}
-		}(ctx)
 	}
 
+	killedAtTimeout := false
 	for !sc.isFinished(g) {
 		if sc.isCanceled() {
 			break
+		}
+		if !killedAtTimeout && sc.isTimeout(g.startedAt) {
+			// The context ends the commands that are running at the
+			// deadline, but not what a command that has already exited
+			// left behind: a background child keeps the step's output open
+			// and the step would wait for it. Kill the process groups of
+			// all steps, once, while the run is still in progress.
+			killedAtTimeout = true
+			for _, node := range g.Nodes() {
+				node.kill()
+			}
 		}
 	NodesIteration:
 		for _, node := range g.Nodes() {
